@@ -553,6 +553,7 @@ func (H) Run(c *core.RunCtx) {
 		sort.Ints(tids)
 		flushing := 0
 		metaFlushing := 0
+		idxFlushing := map[int]int{} // shard -> index flushes in flight (shard.FlushIndex lets one run at a time)
 		for _, t := range tids {
 			mine := byTask[t]
 			total++
@@ -587,6 +588,20 @@ func (H) Run(c *core.RunCtx) {
 								shard = 1
 							}
 							n.genSeries(shard, nss[o.A%2], names[o.B%4], ts)
+						}
+						// the shard's worker handles a flush event right before the row: the index is switched by the worker
+						// itself (never in the middle of a call), the flush runs in the background while the call is held
+						preparedShard := 0
+						if o.T > 0 {
+							shard := o.T
+							if n.idx[shard] == nil {
+								shard = 1
+							}
+							if idxFlushing[shard] == 0 {
+								idxFlushing[shard]++
+								n.idx[shard].PrepareFlush()
+								preparedShard = shard
+							}
 						}
 						me, count, held, released := sim.CurTask(), 0, false, false
 						prev := sim.OnYield
@@ -623,13 +638,10 @@ func (H) Run(c *core.RunCtx) {
 									}
 								}
 								metaFlushing--
-								if o.T > 0 {
-									shard := o.T
-									if n.idx[shard] == nil {
-										shard = 1
-									}
-									n.idx[shard].PrepareFlush()
-									_ = n.idx[shard].Flush()
+								if preparedShard > 0 {
+									// the background flush of what the caller's worker switched before the call
+									_ = n.idx[preparedShard].Flush()
+									idxFlushing[preparedShard]--
 								}
 							})
 							// the held caller may sit inside a critical section the competitor needs: give up after a
@@ -639,6 +651,16 @@ func (H) Run(c *core.RunCtx) {
 						}
 						call()
 						sim.OnYield = prev
+						if preparedShard > 0 && !held && !n.dead {
+							// the call was over before the yield chosen for the hold: the flush runs in the background as usual
+							flushing++
+							ps := preparedShard
+							sim.SpawnIn(n.inc, "flushindex", func() {
+								_ = n.idx[ps].Flush()
+								idxFlushing[ps]--
+								flushing--
+							})
+						}
 						if !n.dead && !c.Violated() {
 							call() // a later caller: the name must still have its id
 						}
@@ -666,6 +688,12 @@ func (H) Run(c *core.RunCtx) {
 						if n.idx[shard] == nil {
 							shard = 1
 						}
+						if idxFlushing[shard] > 0 {
+							// shard.FlushIndex: "another flush process is running" - nothing is switched
+							sim.Probe("flushindex-skipped")
+							break
+						}
+						idxFlushing[shard]++
 						idb := n.idx[shard]
 						idb.PrepareFlush()
 						flushing++
@@ -673,6 +701,7 @@ func (H) Run(c *core.RunCtx) {
 							if err := idb.Flush(); err != nil {
 								c.Anomaly("index flush: %v", err)
 							}
+							idxFlushing[shard]--
 							flushing--
 						})
 					}
